@@ -250,8 +250,8 @@ def tlc(specwork, module, cfg, workers=1, timeout=600, simulate=None, depth=None
     outpath = os.path.join(specwork, "out_" + tag + ".txt")
     # bounded heaps: checks run many JVMs side by side (the JVM's default of a quarter of the RAM each
     # ended in the kernel's OOM killer on a loaded machine)
-    heap = os.environ.get("VERIF_TLC_HEAP") or ("3g" if (simulate is not None or workers <= 1) else ("6g" if workers <= 4 else "12g"))
-    cmd = ["java", "-Xmx" + heap, "-XX:+UseParallelGC", "-XX:ParallelGCThreads=%d" % (2 if workers <= 2 else min(workers, 8)), "-XX:TieredStopAtLevel=4"]
+    heap = os.environ.get("VERIF_TLC_HEAP") or ("2g" if (simulate is not None or workers <= 1) else ("4g" if workers <= 4 else "8g"))
+    cmd = ["java", "-Xmx" + heap, "-XX:MinHeapFreeRatio=10", "-XX:MaxHeapFreeRatio=30", "-XX:+UseParallelGC", "-XX:ParallelGCThreads=%d" % (2 if workers <= 2 else min(workers, 8)), "-XX:TieredStopAtLevel=4"]
     if xss:
         cmd += ["-Xss512m"]
     if deque:
